@@ -145,6 +145,54 @@ def main():
             opts = {"free_rate": 0.2, "stale_rate": 0.5, "second_object_table": True, "distractors": 2, "other_header": "older", "active_slot": rng.choice([0, 1]), "back_reference": True}
             data = hc.build(rng, tree, rng.choice([1, 2]), opts)
             bases.append(("generated tree with mutually referencing object tables", data, [(0x2000, 0x2000 + 8 + 18 * 6)], HyperVFile))
+    elif fmt == "bombs":
+        # decompression bombs: a well-formed QCOW2 image whose one compressed cluster carries a deflate stream that inflates to the
+        # cluster's content followed by 96 MiB of zeros.  Every read of that cluster -- in particular one that ends exactly at the
+        # cluster boundary -- must return the cluster's bytes while allocating no more than a small multiple of the cluster size.
+        import struct
+        import tracemalloc
+        import zlib
+        from io import BytesIO
+
+        from dissect.hypervisor.disk.qcow2 import QCow2
+
+        evals, fails = 0, []
+        for cb in (16, 12):
+            cs = 1 << cb
+            content = bytes((7 * i + (i >> 8)) & 0xFF or 1 for i in range(cs))
+            co = zlib.compressobj(9, zlib.DEFLATED, -12)
+            stream = co.compress(content) + co.compress(bytes(96 << 20 if cb == 16 else 3 << 20)) + co.flush()
+            x = 62 - (cb - 8)
+            nsect = (len(stream) + 511) // 512
+            if nsect - 1 >= (1 << (62 - x)):
+                continue
+            hdr = struct.pack(">4sIQIIQIIQQIIQQQQII", b"QFI\xfb", 3, 0, 0, cb, 4 * cs, 0, 1, cs, 0, 0, 0, 0, 0, 0, 0, 4, 104)
+            img = bytearray(3 * cs + nsect * 512)
+            img[: len(hdr)] = hdr
+            img[cs : cs + 8] = struct.pack(">Q", 2 * cs)
+            img[2 * cs : 2 * cs + 8] = struct.pack(">Q", (1 << 62) | ((nsect - 1) << x) | (3 * cs))
+            img[3 * cs : 3 * cs + len(stream)] = stream
+            limit = 8 * cs + (6 << 20)
+            for off, ln in ((0, cs // 2), (0, cs), (cs - 1, 1), (cs // 2, cs // 2), (100, 4096), (0, 2 * cs)):
+                evals += 1
+                q = QCow2(BytesIO(bytes(img)))
+                tracemalloc.start()
+                try:
+                    got = q._read(off, ln) if (off % 512 == 0 and ln % 512 == 0) else (q.seek(off), q.read(ln))[1]
+                    peak = tracemalloc.get_traced_memory()[1]
+                except MemoryError:
+                    got, peak = None, 1 << 40
+                finally:
+                    tracemalloc.stop()
+                want = (content + bytes(3 * cs))[off : off + ln]
+                if got is not None and got != want:
+                    fails.append({"kind": "mismatch", "mutation": f"qcow2 cluster_bits={cb} compressed cluster with an over-long deflate stream, read({off}, {ln})", "detail": "wrong bytes returned"})
+                if peak > limit:
+                    fails.append({"kind": "memory", "mutation": f"qcow2 cluster_bits={cb} compressed cluster whose deflate stream inflates to cluster + {96 if cb == 16 else 3} MiB of zeros, read({off}, {ln})",
+                                  "detail": f"peak allocation {peak} bytes for a {ln}-byte read (bound {limit}): the stream was inflated beyond the cluster it fills"})
+                    break
+        json.dump({"evaluations": evals, "distinct": evals, "failures": fails[:5]}, sys.stdout)
+        return
     elif fmt == "hddxml":
         import tempfile
         from pathlib import Path
